@@ -10,7 +10,8 @@ C12 line-protocol driver.
       ifm   = `-` | e<k> (the ETag step k returned) | p<k>.<pathhex> (that ETag's hash, other path)
             | w<pathhex> (well-formed, wrong hash) | r<hex> (raw header that is NOT of the form "a b")
       flags = `-` | [f][one Content-Type letter]  (f = Cache-Control: must-revalidate; see `ctOfChar`)
-  answer: per step  <resp>  for G/H, and  <resp>/<config>/<ids>/<probe loads>/<probe saw>  otherwise
+  answer: per step  <resp>  for G/H, and  <resp>/<config>/<ids>/<probe loads>/<probe saw>/<loads>  otherwise
+          (loads = how often any configuration was started)
       resp  = g:<tree|->:<etag path hex> | w | d:<tree> (/adapt) | r | amb | F<status>:<class>
       ids   = for every distinct "@id" text in the config, sorted: <hex>=<resp of GET /id/<text>, etag path only>
   cas <k> <n>                 k concurrent clients × n conditional increments → `cas <k*n>`
@@ -306,7 +307,7 @@ def stepDrv (d : Drv) (step : String) : Option Drv :=
       let line :=
         if hm == .get || hm == .other then showResp isGet resp
         else showResp isGet resp ++ "/" ++ encTree (cfgOf s'.rawCfg) ++ "/" ++ showIds s' ++ "/" ++
-          toString pl ++ "/" ++ (match ps with | some j => encTree j | none => "-")
+          toString pl ++ "/" ++ (match ps with | some j => encTree j | none => "-") ++ "/" ++ toString s'.loads
       some { s := s', etags := d.etags ++ [et], probeLoads := pl, probeSaw := ps, out := line :: d.out }
     | _, _, _, _, _ => none
   | _ => none
